@@ -4,13 +4,15 @@ import json, os
 ROOT = os.path.dirname(os.path.dirname(os.path.abspath(__file__)))
 TB = ("Lean 4.33 kernel; axioms printed by the per-run audit (subset of propext, Classical.choice, Quot.sound; no native_decide/bv_decide, "
       "no axioms of our own); tools/translate.py; the harness adapters; the statement of each theorem. ")
-CHECKS = {
- "C19": dict(
-    technique="Lean 4 proof: polynomial cost bound for every `safe` regex (induction on the expression and on fuel) + decide on the regenerated pattern list; engine model validated differentially against CPython re; wall-clock oracle on pump families",
-    text="Theorem C19_cost: for every regex meeting the decidable criterion `safe`, the no-memoisation backtracking cost on ANY input is at most coef*(|s|+1)^deg; C19_here/C19_degrees (decide on the file regenerated from the source on every run): every pattern the library matches is safe with degree <= 6. A pattern that becomes ambiguous breaks the decide; the check then times the real validators on pump families built from the pattern and reports the stalling string.",
-    note=TB + "Modelled, not verified: CPython's sre (cost model = list-of-successes backtracking, an upper-envelope assumption; acceptance and captures compared with re on every run). Non-regex costs (quadratic identity scan in Images.add) are outside the Lean claim.",
-    ref="7/C19"),
-}
+import sys, glob
+sys.path.insert(0, os.path.join(ROOT, "harness"))
+CHECKS = {}
+for f in sorted(glob.glob(os.path.join(ROOT, "harness", "props", "c[0-9]*.py"))):
+    import importlib
+    mod = importlib.import_module("props." + os.path.basename(f)[:-3])
+    if getattr(mod, "MANIFEST", None):
+        CHECKS[mod.PROP.id] = dict(mod.MANIFEST)
+        CHECKS[mod.PROP.id]["note"] = TB + CHECKS[mod.PROP.id]["note"]
 NOT_YET = {}
 def main():
     props = [json.loads(l) for l in open(os.path.join(ROOT, "properties.jsonl"))]
